@@ -158,7 +158,12 @@ static int cmdRun(std::map<std::string, std::string>& a)
             if (states.size() < 2000000)
                 states.insert(s);
         for (auto& kv : r.probes)
-            probes[kv.first] += kv.second;
+        {
+            if (kv.first.rfind("max-", 0) == 0)
+                probes[kv.first] = std::max(probes[kv.first], kv.second);  // a maximum, not a count
+            else
+                probes[kv.first] += kv.second;
+        }
         for (auto& kv : r.faults)
             faults[kv.first] += kv.second;
         simTime += r.simTimeUs;
